@@ -35,7 +35,7 @@ GOf(e) ==
   CASE e.a = "Start" -> G_Start(e.args.r, e.args.s, e.args.op, e.args.x)
     [] e.a = "Handle" -> G_Handle(e.args.i)
     [] e.a = "Lock" -> G_Lock(e.args.i)
-    [] e.a = "Propose" -> e.args.i \in Ids /\ inst[e.args.i].pc = "checked"
+    [] e.a = "Propose" -> e.args.i \in Ids /\ inst[e.args.i].pc = "checked" /\ e.args.x \in Servers \cup {"-"}
     [] e.a = "Apply" -> G_Apply(e.args.s)
     [] e.a = "Cancel" -> G_Cancel(e.args.i)
     [] e.a = "Transfer" -> G_Transfer(e.args.t)
@@ -121,7 +121,7 @@ TraceNext ==
   /\ Trace[l].a # "End"
   /\ l' = l + 1
   /\ LET e == Trace[l]
-         n == NOf(e) IN
+         n == IF GOf(e) THEN NOf(e) ELSE Same IN      \* a step the specification has not enabled: nothing to compare with
      IF e.a = "Open" THEN
         /\ log' = <<>> /\ applied' = [s \in Servers |-> 0] /\ slow' = ToSet(e.st.slow)
         /\ rleader' = e.st.rleader /\ term' = 0
@@ -138,12 +138,16 @@ TraceNext ==
      ELSE
         /\ Bind(e, n)
         /\ Chk(P_LogStep(e.a = "Propose") \/ e.a = "Drain", "P", e, "X04_OneEntryPerStep")
-        /\ Chk(e.a = "Propose" => P_Propose(e.args.i), "P", e, "X04_Current")
-        /\ Chk(X04_Current', "P", e, "X04_CurrentLog")
+        /\ Chk(e.a = "Propose" => P_Propose(e.args.i), "P", e, "X04_EntryOfRequest")
+        /\ Chk(X04_Current', "P", e, "X04_Current")
+        /\ Chk(X04_RefusedNoEntry', "P", e, "X04_RefusedNoEffect")
         /\ Chk(X04_AtMostOneEffect', "P", e, "X04_AtMostOneEffect")
         /\ Chk(e.a = "Drain" \/ X04_OkCommitted', "P", e, "X04_OkCommitted")
         /\ Chk(SameSequence', "P", e, "X04_SameSequence")
         /\ IF e.a \in {"Drain"} THEN TRUE
+           ELSE IF e.obs.stuck # "" THEN
+                \* the step could not be driven to its end on this code: an observation, nothing to conform to
+                Chk(FALSE, "I", e, "stuck")
            ELSE IF e.a = "Skip" THEN
                 Chk(e.st.log = [k \in 1..Len(log) |-> ObsEntry(log[k])]
                     /\ \A i \in Ids : ObsInst(e.st.inst[i]) = ObsInst(inst[i]), "I", e, "skip-changed-state")
